@@ -204,7 +204,7 @@ def main(argv=None):
         data = json.load(open(args.replay))
         r = replay_model(data["job"], data["model"])
         print(json.dumps(r, indent=1))
-        if r["status"] == "failed":
+        if r["status"] == "failed" or (r["status"] == "exception" and data["label"].startswith("unexpected-exception")):
             print(f"VIOLATION property={prop} replay={args.replay}")
             return 1
         return 0 if r["status"] == "ok" else 2
@@ -281,7 +281,9 @@ def main(argv=None):
         path = os.path.join(rpdir, f"{prop}-{digest}.json")
         rec = {"property": prop, "job": jjson, "label": v["label"], "detail": v["detail"],
                "model": v["model"], "decisions": v["decisions"], "replay": rp}
-        if rp["status"] != "failed":
+        confirmed = rp["status"] == "failed" or (
+            rp["status"] == "exception" and v["label"].startswith("unexpected-exception"))
+        if not confirmed:
             nonrepro.append((jjson["name"], v["label"], rp))
             continue
         hit = None
@@ -294,7 +296,7 @@ def main(argv=None):
             continue
         with open(path, "w") as f:
             json.dump(rec, f, indent=1, default=str)
-        new_viol.append((path, jjson["name"], v["label"], rp["failed"]))
+        new_viol.append((path, jjson["name"], v["label"], rp["failed"] or rp["error"]))
 
     wall = round(time.perf_counter() - t0, 3)
     status = 0
